@@ -52,6 +52,9 @@ CHECKS = {
  "C11": ("exploration", "runtime monitoring: sequence and classification oracle over recorded send/recv/closed histories with the close/drop event enumerated over every stream position",
          "Every (channel kind, event, stream length, position) tuple for ports, base, lr and mpsc (1-3 senders) was executed under several seeded schedules: sender drop => everything sent then end-of-stream; receiver close => every completed send delivered, end-of-stream, later sends refused and classified as graceful; receiver drop => refused and classified as dropped; closed() futures resolved; mpsc Sending results formed Ok..Ok Err..Err with every Ok delivered.",
          "positions are enumerated completely for lengths 1,2,4,8; schedules are sampled; bin and oneshot channels are not driven here (oneshot is covered in C04)", "DESIGN.md §3 C11", "rig+history"),
+ "C05": ("exploration", "runtime monitoring: label-matrix oracle (value = label*1000+direction must arrive through the counterpart with the same label) over generated value shapes with many channel halves, 1-3 hops",
+         "Held on N generated value journeys (nested lists/options/pairs/maps/variants with 0-12 halves of 11 kinds, re-sent over up to 3 connections, tiny credit configurations in 25%): every received half was wired to exactly its original counterpart (the diagonal of the label matrix), no half was lost, duplicated, cross-wired or left hanging at quiescence; doubly sent single-connection channels produced data or errors, never a hang.",
+         "port exhaustion with wait=true is a wait by design and is not driven; lr halves travel one hop only (documented)", "DESIGN.md §3 C05", "rig+history"),
 }
 
 NOT_YET = "check not yet implemented in this commit (DESIGN.md §6a gives the order of implementation)"
